@@ -1,5 +1,7 @@
 import FluteModel.Lemmas.SpecLct
 import FluteModel.Lemmas.Ntp
+import FluteModel.Lemmas.Codec
+import FluteModel.Legacy
 import FluteModel.Props.C04Wire   -- parser totality (C04, wire part) is built and checked together with C06
 /-
   C06  ALC/LCT wire format: round trips, and equality with an independent RFC implementation
@@ -10,7 +12,7 @@ import FluteModel.Props.C04Wire   -- parser totality (C04, wire part) is built a
   D23 (Raptor EXT_FTI layout); the model is tied to the tree by the `wire` correspondence engine.
 -/
 namespace Flute.Props.C06
-open Flute Flute.Bytes Flute.Lct Flute.Spec Flute.Ntp
+open Flute Flute.Bytes Flute.Lct Flute.Fti Flute.Alc Flute.Spec Flute.Ntp
 
 /-! ## LCT header (RFC 5651 §5.1) -/
 
@@ -148,6 +150,44 @@ theorem ext_walk_eq_spec (f : LctFields) (hv : f.Valid) (payload : List Nat) (he
   rw [hs, Out.bind_ok]
   exact getExtLoop_encodeExts f.exts hexts het _ (Nat.le_refl _)
 
+/-- non-vacuity of `lct_parse_eq_spec` / `ext_walk_eq_spec`: a valid header with NON-minimal widths, an unknown
+    extension with HEL = 64, an unknown fixed-length extension, then EXT_CENC -/
+example : sampleHeader.Valid := by
+  refine ⟨rfl, by decide, by decide, by decide, by decide, by decide, by decide, by decide, by decide, by decide,
+    by decide, by decide, by decide, ?_⟩
+  intro e he
+  simp only [sampleHeader, List.mem_cons, List.not_mem_nil, or_false] at he
+  rcases he with rfl | rfl | rfl
+  · refine ⟨fun b hb => ?_, ?_⟩
+    · rw [List.eq_of_mem_replicate hb]; decide
+    · simp only [show (65:Nat) < 128 from by decide, if_true, List.length_replicate]; decide
+  · exact ⟨by decide, by decide⟩
+  · exact ⟨by decide, by decide⟩
+
+example : getExt (sampleHeader.encode ++ [0, 1, 0, 2]) (parsedOf sampleHeader) 193 = .ok (some [193, 2, 0, 0]) := by
+  rw [ext_walk_eq_spec sampleHeader (by
+    refine ⟨rfl, by decide, by decide, by decide, by decide, by decide, by decide, by decide, by decide, by decide,
+      by decide, by decide, by decide, ?_⟩
+    intro e he
+    simp only [sampleHeader, List.mem_cons, List.not_mem_nil, or_false] at he
+    rcases he with rfl | rfl | rfl
+    · refine ⟨fun b hb => ?_, ?_⟩
+      · rw [List.eq_of_mem_replicate hb]; decide
+      · simp only [show (65:Nat) < 128 from by decide, if_true, List.length_replicate]; decide
+    · exact ⟨by decide, by decide⟩
+    · exact ⟨by decide, by decide⟩)]
+  decide
+
+/-- D7 witness (pre-repair code): ANY extension area that starts with an unknown variable-length extension of
+    64 words (`HET = 65, HEL = 64`, RFC-valid: HEL may be up to 255) made the legacy walk reject the packet,
+    whatever extension was asked for - `(64 << 2) as u8 = 0`.  The repaired code finds the extensions behind it
+    (`ext_walk_eq_spec`, non-vacuity example `sampleHeader`). -/
+theorem legacy_ext_walk_hel64_rejected (fuel : Nat) (rest : List Nat) (ext : Nat) (h : 2 ≤ rest.length) :
+    Legacy.getExtLoop (fuel + 1) (65 :: 64 :: rest) ext = .err := by
+  unfold Legacy.getExtLoop
+  rw [if_pos (by simp only [List.length_cons]; omega)]
+  simp [idx]
+
 /-! ## NTP timestamps / sender current time (EXT_TIME SCT-High, SCT-Low) -/
 
 /-- **ntp_roundtrip** (exact): for every instant `us` (microseconds since the UNIX epoch) from 1970 to the end
@@ -193,4 +233,351 @@ theorem ntp_eq_spec (us : Nat) (h : us / 1000000 + 2208988800 < 2^32) :
 example : (systemTimeToNtp 1).toOption.map ntpToSystemTime = some (.ok 1) := by decide
 example : (2085978495999999 : Nat) / 1000000 + 2208988800 < 2^32 := by decide
 
+/-- D13 witness (pre-repair code): one microsecond after the epoch came back as 0 -/
+theorem legacy_ntp_roundtrip_false : ntpToSystemTime (Legacy.systemTimeToNtp 1) = .ok 0 := by decide
+
+
+/-! ## EXT_FDT, EXT_CENC, EXT_TIME -/
+
+/-- EXT_FDT (RFC 6726 §3.4.1): ∀ version < 16, FDT instance id < 2^20, the extension `push_fdt` appends is the
+    RFC layout -/
+theorem ext_fdt_eq_spec (data : List Nat) (version id : Nat) (hv : version < 16) (hid : id < 2^20) :
+    pushFdt data version id = extendInc data (Spec.encode (extFdtDiagram version id)) 1 := by
+  unfold pushFdt
+  rewrite [fdt_word version id hv hid]
+  spec_bytes
+  rw [Nat.add_assoc]
+
+/-- ... and `parse_ext_fdt` reads any RFC-laid-out EXT_FDT back to `(version, instance id)` -/
+theorem ext_fdt_parse_spec (version id : Nat) (hv : version < 16) (hid : id < 2^20) :
+    parseExtFdt (Spec.encode (extFdtDiagram version id)) = .ok (some (version, id)) := by
+  spec_bytes
+  unfold parseExtFdt
+  rewrite [length_beBytes, if_neg (by omega), beVal_beBytes]
+  simp only [Nat.reducePow] at hid ⊢
+  simp only [Out.ok.injEq, Option.some.injEq, Prod.mk.injEq]
+  constructor <;> omega
+
+/-- EXT_CENC (RFC 6726 §3.4.3) -/
+theorem ext_cenc_eq_spec (data : List Nat) (cenc : Nat) :
+    pushCenc data cenc = extendInc data (Spec.encode (extCencDiagram cenc)) 1 := by
+  unfold pushCenc
+  spec_bytes
+
+theorem ext_cenc_parse_spec (cenc : Nat) (h : cenc ≤ 3) :
+    parseCenc (Spec.encode (extCencDiagram cenc)) = .ok cenc := by
+  spec_bytes
+  unfold parseCenc
+  rewrite [length_beBytes, if_neg (by omega), idx_beBytes _ _ _ (by omega), Out.bind_ok]
+  simp only [Nat.reduceSub, Nat.reducePow]
+  have : (193 * 16777216 + cenc * 65536) / 65536 % 256 = cenc := by omega
+  rewrite [this, if_pos h]
+  rfl
+
+/-! ## EXT_FTI per FEC scheme (HET = 64)
+
+  `fti_<scheme>_eq_spec`: the bytes `add_fti` emits are the RFC layout of the OTI values (whole field ranges).
+  `fti_<scheme>_parse_spec`: `get_fti` on the RFC layout of ANY in-range values returns those values.
+  `fti_<scheme>_roundtrip`: `get_fti ∘ add_fti` returns the sender's values. -/
+
+/-- No-Code (FEC id 0), RFC 5445: ∀ L < 2^48, E < 2^16, B < 2^32 -/
+theorem fti_nocode_eq_spec (oti : Oti) (L : Nat) (hL : L < 2^48) (hE : oti.esl < 2^16) (hB : oti.maxSbl < 2^32) :
+    addFtiNoCode oti L = .ok (Spec.encode (ftiNoCode L oti.esl oti.maxSbl), 4) := by
+  unfold addFtiNoCode
+  spec_bytes
+  simp only [Nat.reducePow] at hL hE hB ⊢
+  refine congrArg (fun x => Except.ok (x, 4)) ?_
+  bytes_eq
+
+theorem fti_nocode_parse_spec (L E B : Nat) (hL : L < 2^48) (hE : E < 2^16) (hB : B < 2^32) :
+    getFtiNoCode (Spec.encode (ftiNoCode L E B)) = .ok (otiOf 0 0 B E 0 .none, L) := by
+  spec_bytes
+  unfold getFtiNoCode otiOf
+  parse_bebytes
+  simp only [Nat.reducePow] at hL hE hB
+  rewrite [if_neg (by omega)]
+  fields_eq
+
+/-- Reed-Solomon GF(2^8) (FEC id 5), RFC 5510 §5: ∀ L < 2^48, E < 2^16, B + parity ≤ 255 -/
+theorem fti_rs28_eq_spec (oti : Oti) (L : Nat) (hL : L < 2^48) (hE : oti.esl < 2^16)
+    (hN : oti.parity + oti.maxSbl < 256) :
+    addFtiRs28 oti L = .ok (Spec.encode (ftiRs28 L oti.esl oti.maxSbl (oti.parity + oti.maxSbl)), 3) := by
+  unfold addFtiRs28 u32add
+  simp only [Nat.reducePow] at hL hE ⊢
+  rewrite [if_pos (by omega)]
+  simp only []
+  rewrite [Nat.mod_eq_of_lt hL, Nat.mod_eq_of_lt hN, Nat.mod_eq_of_lt (show oti.maxSbl < 256 by omega)]
+  spec_bytes
+  refine congrArg (fun x => Except.ok (x, 3)) ?_
+  bytes_eq
+
+theorem fti_rs28_parse_spec (L E B maxN : Nat) (hL : L < 2^48) (hE : E < 2^16) (hB : B < 256) (hN : maxN < 256) :
+    getFtiRs28 (Spec.encode (ftiRs28 L E B maxN)) = .ok (otiOf 5 0 B E (maxN - B) .none, L) := by
+  spec_bytes
+  unfold getFtiRs28 otiOf
+  parse_bebytes
+  simp only [Nat.reducePow] at hL hE
+  rewrite [if_neg (by omega)]
+  fields_eq
+
+/-- Small Block Systematic, under-specified (FEC id 129), RFC 5445 §5 -/
+theorem fti_rs28us_eq_spec (oti : Oti) (L : Nat) (hL : L < 2^48) (hI : oti.inst < 2^16) (hE : oti.esl < 2^16)
+    (hN : oti.parity + oti.maxSbl < 2^16) :
+    addFtiRs28Us oti L =
+      .ok (Spec.encode (ftiSmallBlock L oti.inst oti.esl oti.maxSbl (oti.parity + oti.maxSbl)), 4) := by
+  unfold addFtiRs28Us u32add
+  simp only [Nat.reducePow] at hL hI hE hN ⊢
+  rewrite [if_pos (by omega)]
+  spec_bytes
+  refine congrArg (fun x => Except.ok (x, 4)) ?_
+  bytes_eq
+
+theorem fti_rs28us_parse_spec (L inst E B maxN : Nat) (hL : L < 2^48) (hI : inst < 2^16) (hE : E < 2^16)
+    (hB : B < 2^16) (hN : maxN < 2^16) :
+    getFtiRs28Us (Spec.encode (ftiSmallBlock L inst E B maxN)) = .ok (otiOf 129 inst B E (maxN - B) .none, L) := by
+  spec_bytes
+  unfold getFtiRs28Us otiOf
+  parse_bebytes
+  simp only [Nat.reducePow] at hL hI hE hB hN
+  rewrite [if_neg (by omega)]
+  fields_eq
+
+/-- Reed-Solomon GF(2^m) (FEC id 2), RFC 5510 §4 -/
+theorem fti_rs2m_eq_spec (oti : Oti) (L m g : Nat) (hss : oti.ss = .rs m g) (hL : L < 2^48) (hm : m < 256) (hg : g < 256)
+    (hE : oti.esl < 2^16) (hN : oti.parity + oti.maxSbl < 2^16) :
+    addFtiRs2m oti L =
+      .ok (Spec.encode (ftiRs2m L m g oti.esl oti.maxSbl (oti.parity + oti.maxSbl)), 4) := by
+  unfold addFtiRs2m u32add
+  rewrite [hss]
+  simp only [Nat.reducePow] at hL hE hN ⊢
+  rewrite [if_pos (by omega)]
+  spec_bytes
+  refine congrArg (fun x => Except.ok (x, 4)) ?_
+  bytes_eq
+
+theorem fti_rs2m_parse_spec (L m g E B maxN : Nat) (hL : L < 2^48) (hm : m < 256) (hg : g < 256) (hE : E < 2^16)
+    (hB : B < 2^16) (hN : maxN < 2^16) :
+    getFtiRs2m (Spec.encode (ftiRs2m L m g E B maxN)) =
+      .ok (otiOf 2 0 B E (maxN - B) (.rs (if m = 0 then 8 else m) (if g = 0 then 1 else g)), L) := by
+  spec_bytes
+  unfold getFtiRs2m otiOf
+  parse_bebytes
+  simp only [Nat.reducePow] at hL hE hB hN
+  rewrite [if_neg (by omega)]
+  have em : (64 * 1329227995784915872903807060280344576 + (4 * 5192296858534827628530496329220096 +
+      (L * 18446744073709551616 + (m * 72057594037927936 + (g * 281474976710656 +
+      (E * 4294967296 + (B * 65536 + maxN))))))) / 72057594037927936 % 256 = m := by omega
+  have eg : (64 * 1329227995784915872903807060280344576 + (4 * 5192296858534827628530496329220096 +
+      (L * 18446744073709551616 + (m * 72057594037927936 + (g * 281474976710656 +
+      (E * 4294967296 + (B * 65536 + maxN))))))) / 281474976710656 % 256 = g := by omega
+  rewrite [em, eg]
+  fields_eq
+
+/-- RaptorQ (FEC id 6), RFC 6330 §3.3.2-3.3.3: ∀ F < 2^40, T < 2^16, Z < 2^8, N < 2^16, Al < 2^8 -/
+theorem fti_raptorq_eq_spec (oti : Oti) (F z n al : Nat) (hss : oti.ss = .raptorq z n al) (hF : F < 2^40)
+    (hT : oti.esl < 2^16) (hz : z < 2^8) (hn : n < 2^16) (hal : al < 2^8) :
+    addFtiRaptorQ oti F = .ok (Spec.encode (ftiRaptorQ F oti.esl z n al), 4) := by
+  unfold addFtiRaptorQ
+  rewrite [hss]
+  simp only [Nat.reducePow] at hF hT hz hn hal ⊢
+  rewrite [Nat.mod_eq_of_lt (show F * 16777216 < 18446744073709551616 by omega), Nat.mod_eq_of_lt hT]
+  spec_bytes
+  refine congrArg (fun x => Except.ok (x, 4)) ?_
+  bytes_eq
+
+theorem fti_raptorq_parse_spec (F T Z N Al : Nat) (hF : F < 2^40) (hT : T < 2^16) (hZ : Z < 2^8) (hN : N < 2^16)
+    (hAl : Al < 2^8) :
+    getFtiRaptorQ (Spec.encode (ftiRaptorQ F T Z N Al)) = raptorCheck 6 (.raptorq Z N Al) F T Z Al := by
+  spec_bytes
+  simp only [Nat.reducePow] at hF hT hZ hN hAl
+  apply getFtiRaptorQ_core <;> simp only [Nat.reducePow] <;> omega
+
+/-- Raptor (FEC id 1), RFC 5053 §3.2.2-3.2.3: ∀ F < 2^48, T < 2^16, Z < 2^16, N < 2^8, Al < 2^8
+    (false before the repair of D35: flute used the RaptorQ layout) -/
+theorem fti_raptor_eq_spec (oti : Oti) (F z n al : Nat) (hss : oti.ss = .raptor z n al) (hF : F < 2^48)
+    (hT : oti.esl < 2^16) (hz : z < 2^16) (hn : n < 2^8) (hal : al < 2^8) :
+    addFtiRaptor oti F = .ok (Spec.encode (ftiRaptor F oti.esl z n al), 4) := by
+  unfold addFtiRaptor
+  rewrite [hss]
+  simp only [Nat.reducePow] at hF hT hz hn hal ⊢
+  rewrite [Nat.mod_eq_of_lt (show F * 65536 < 18446744073709551616 by omega)]
+  spec_bytes
+  refine congrArg (fun x => Except.ok (x, 4)) ?_
+  bytes_eq
+
+theorem fti_raptor_parse_spec (F T Z N Al : Nat) (hF : F < 2^48) (hT : T < 2^16) (hZ : Z < 2^16) (hN : N < 2^8)
+    (hAl : Al < 2^8) :
+    getFtiRaptor (Spec.encode (ftiRaptor F T Z N Al)) = raptorCheck 1 (.raptor Z N Al) F T Z Al := by
+  spec_bytes
+  simp only [Nat.reducePow] at hF hT hZ hN hAl
+  apply getFtiRaptor_core <;> simp only [Nat.reducePow] <;> omega
+
+/-! ## FEC payload id per scheme -/
+
+/-- **payload_id_eq_spec**: over each scheme's whole SBN / ESI range the bytes `add_fec_payload_id` emits are
+    the RFC layout (No-Code 16+16, RS GF(2^8) 24+8, Small Block Systematic 32+16+16, RS GF(2^m) (32-m)+m,
+    RaptorQ 8+24, Raptor 16+16) -/
+theorem payload_id_nocode_eq_spec (oti : Oti) (sbn esi sbl : Nat) (h : oti.fecId = 0) (h1 : sbn < 2^16) (h2 : esi < 2^16) :
+    addPayloadId oti sbn esi sbl = .ok (Spec.encode (fpidNoCode sbn esi)) := by
+  unfold addPayloadId
+  simp only [h, NOCODE, if_true, Nat.reducePow] at h1 h2 ⊢
+  rewrite [Nat.mod_eq_of_lt h1, Nat.mod_eq_of_lt h2]
+  spec_bytes
+
+theorem payload_id_rs28_eq_spec (oti : Oti) (sbn esi sbl : Nat) (h : oti.fecId = 5) (h1 : sbn < 2^24) (h2 : esi < 2^8) :
+    addPayloadId oti sbn esi sbl = .ok (Spec.encode (fpidRs28 sbn esi)) := by
+  unfold addPayloadId
+  simp only [h, NOCODE, RS28, Nat.reduceEqDiff, if_true, if_false, Nat.reducePow] at h1 h2 ⊢
+  rewrite [Nat.mod_eq_of_lt h1, Nat.mod_eq_of_lt h2]
+  spec_bytes
+
+theorem payload_id_rs28us_eq_spec (oti : Oti) (sbn esi sbl : Nat) (h : oti.fecId = 129) (h1 : sbn < 2^32)
+    (h2 : esi < 2^16) (h3 : sbl < 2^16) :
+    addPayloadId oti sbn esi sbl = .ok (Spec.encode (fpidSmallBlock sbn sbl esi)) := by
+  unfold addPayloadId
+  simp only [h, NOCODE, RS28, RS28US, Nat.reduceEqDiff, if_true, if_false, Nat.reducePow] at h1 h2 h3 ⊢
+  spec_bytes
+  refine congrArg Except.ok ?_
+  bytes_eq
+
+theorem payload_id_raptorq_eq_spec (oti : Oti) (sbn esi sbl : Nat) (h : oti.fecId = 6) (h1 : sbn < 2^8) (h2 : esi < 2^24) :
+    addPayloadId oti sbn esi sbl = .ok (Spec.encode (fpidRaptorQ sbn esi)) := by
+  unfold addPayloadId
+  simp only [h, NOCODE, RS28, RS28US, RS2M, RAPTORQ, Nat.reduceEqDiff, if_true, if_false, Nat.reducePow] at h1 h2 ⊢
+  rewrite [Nat.mod_eq_of_lt h1, Nat.mod_eq_of_lt h2]
+  spec_bytes
+
+theorem payload_id_raptor_eq_spec (oti : Oti) (sbn esi sbl : Nat) (h : oti.fecId = 1) (h1 : sbn < 2^16) (h2 : esi < 2^16) :
+    addPayloadId oti sbn esi sbl = .ok (Spec.encode (fpidRaptor sbn esi)) := by
+  unfold addPayloadId
+  simp only [h, NOCODE, RS28, RS28US, RS2M, RAPTORQ, RAPTOR, Nat.reduceEqDiff, if_true, if_false, Nat.reducePow] at h1 h2 ⊢
+  rewrite [Nat.mod_eq_of_lt h1, Nat.mod_eq_of_lt h2]
+  spec_bytes
+
+/-- RS GF(2^m): ∀ 1 ≤ m ≤ 31 (flute refuses m ≥ 32), SBN < 2^(32-m), ESI < 2^m
+    (false before the repair of D36 for ESI ≥ 256 or m < 8) -/
+theorem payload_id_rs2m_eq_spec (oti : Oti) (m g sbn esi sbl : Nat) (h : oti.fecId = 2) (hss : oti.ss = .rs m g)
+    (hm : m < 32) (h1 : sbn < 2^(32 - m)) (h2 : esi < 2^m) :
+    addPayloadId oti sbn esi sbl = .ok (Spec.encode (fpidRs2m m sbn esi)) := by
+  unfold addPayloadId rsM
+  simp only [h, hss, NOCODE, RS28, RS28US, RS2M, Nat.reduceEqDiff, if_true, if_false]
+  rewrite [if_neg (by omega), encode_fpidRs2m m sbn esi (by omega), Nat.mod_eq_of_lt h2]
+  have : sbn * 2 ^ m < 2 ^ 32 := by
+    have e : (2:Nat) ^ 32 = 2 ^ (32 - m) * 2 ^ m := by rw [← Nat.pow_add]; congr 1; omega
+    rw [e]; exact Nat.mul_lt_mul_of_lt_of_le h1 (Nat.le_refl _) (Nat.pow_pos (by decide))
+  rw [Nat.mod_eq_of_lt this]
+
+
+/-- **payload_id_parse_spec**: `parse_payload_id` on a datagram whose payload-id window holds the RFC layout of
+    any in-range (SBN, ESI[, source block length]) returns those values, whatever precedes and follows -/
+theorem payload_id_nocode_parse_spec (oti : Oti) (pre post : List Nat) (sbn esi : Nat) (h : oti.fecId = 0)
+    (h1 : sbn < 2^16) (h2 : esi < 2^16) :
+    getPayloadId oti (pre ++ (Spec.encode (fpidNoCode sbn esi) ++ post)) pre.length (pre.length + 4) =
+      .ok { sbn := sbn, esi := esi, sbl := none } := by
+  spec_bytes
+  have := getPayloadId_window oti pre (beBytes 4 (sbn * 65536 + esi)) post
+  rewrite [length_beBytes] at this
+  rewrite [this, pidOfBytes_beBytes4 oti _ (by rw [h]; decide)]
+  simp only [h, NOCODE, if_true, Nat.reducePow] at h1 h2 ⊢
+  fields_eq
+
+theorem payload_id_rs28_parse_spec (oti : Oti) (pre post : List Nat) (sbn esi : Nat) (h : oti.fecId = 5)
+    (h1 : sbn < 2^24) (h2 : esi < 2^8) :
+    getPayloadId oti (pre ++ (Spec.encode (fpidRs28 sbn esi) ++ post)) pre.length (pre.length + 4) =
+      .ok { sbn := sbn, esi := esi, sbl := none } := by
+  spec_bytes
+  have := getPayloadId_window oti pre (beBytes 4 (sbn * 256 + esi)) post
+  rewrite [length_beBytes] at this
+  rewrite [this, pidOfBytes_beBytes4 oti _ (by rw [h]; decide)]
+  simp only [h, NOCODE, RS28, Nat.reduceEqDiff, if_true, if_false, Nat.reducePow] at h1 h2 ⊢
+  fields_eq
+
+theorem payload_id_rs28us_parse_spec (oti : Oti) (pre post : List Nat) (sbn sbl esi : Nat) (h : oti.fecId = 129)
+    (h1 : sbn < 2^32) (h2 : esi < 2^16) (h3 : sbl < 2^16) :
+    getPayloadId oti (pre ++ (Spec.encode (fpidSmallBlock sbn sbl esi) ++ post)) pre.length (pre.length + 8) =
+      .ok { sbn := sbn, esi := esi, sbl := some sbl } := by
+  spec_bytes
+  have := getPayloadId_window oti pre (beBytes 8 (sbn * 4294967296 + (sbl * 65536 + esi))) post
+  rewrite [length_beBytes] at this
+  rewrite [this, pidOfBytes_beBytes8 oti _ (by rw [h]; rfl)]
+  simp only [Nat.reducePow] at h1 h2 h3 ⊢
+  fields_eq
+
+theorem payload_id_raptorq_parse_spec (oti : Oti) (pre post : List Nat) (sbn esi : Nat) (h : oti.fecId = 6)
+    (h1 : sbn < 2^8) (h2 : esi < 2^24) :
+    getPayloadId oti (pre ++ (Spec.encode (fpidRaptorQ sbn esi) ++ post)) pre.length (pre.length + 4) =
+      .ok { sbn := sbn, esi := esi, sbl := none } := by
+  spec_bytes
+  have := getPayloadId_window oti pre (beBytes 4 (sbn * 16777216 + esi)) post
+  rewrite [length_beBytes] at this
+  rewrite [this, pidOfBytes_beBytes4 oti _ (by rw [h]; decide)]
+  simp only [h, NOCODE, RS28, RS2M, RAPTORQ, Nat.reduceEqDiff, if_true, if_false, Nat.reducePow] at h1 h2 ⊢
+  fields_eq
+
+theorem payload_id_raptor_parse_spec (oti : Oti) (pre post : List Nat) (sbn esi : Nat) (h : oti.fecId = 1)
+    (h1 : sbn < 2^16) (h2 : esi < 2^16) :
+    getPayloadId oti (pre ++ (Spec.encode (fpidRaptor sbn esi) ++ post)) pre.length (pre.length + 4) =
+      .ok { sbn := sbn, esi := esi, sbl := none } := by
+  spec_bytes
+  have := getPayloadId_window oti pre (beBytes 4 (sbn * 65536 + esi)) post
+  rewrite [length_beBytes] at this
+  rewrite [this, pidOfBytes_beBytes4 oti _ (by rw [h]; decide)]
+  simp only [h, NOCODE, RS28, RS2M, RAPTORQ, RAPTOR, Nat.reduceEqDiff, if_true, if_false, Nat.reducePow] at h1 h2 ⊢
+  fields_eq
+
+theorem payload_id_rs2m_parse_spec (oti : Oti) (pre post : List Nat) (m g sbn esi : Nat) (h : oti.fecId = 2)
+    (hss : oti.ss = .rs m g) (hm : m < 32) (h1 : sbn < 2^(32 - m)) (h2 : esi < 2^m) :
+    getPayloadId oti (pre ++ (Spec.encode (fpidRs2m m sbn esi) ++ post)) pre.length (pre.length + 4) =
+      .ok { sbn := sbn, esi := esi, sbl := none } := by
+  rewrite [encode_fpidRs2m m sbn esi (by omega)]
+  have := getPayloadId_window oti pre (beBytes 4 (sbn * 2 ^ m + esi)) post
+  rewrite [length_beBytes] at this
+  rewrite [this, pidOfBytes_beBytes4 oti _ (by rw [h]; decide)]
+  have hlt : sbn * 2 ^ m + esi < 2 ^ 32 := by
+    have e : (2:Nat) ^ 32 = 2 ^ (32 - m) * 2 ^ m := by rw [← Nat.pow_add]; congr 1; omega
+    have : (sbn + 1) * 2 ^ m ≤ 2 ^ (32 - m) * 2 ^ m := Nat.mul_le_mul_right _ h1
+    rw [e]; rw [Nat.add_mul] at this; omega
+  have hr : rsM oti = m := by unfold rsM; rw [hss]
+  simp only [h, hr, NOCODE, RS28, RS2M, Nat.reduceEqDiff, if_true, if_false]
+  rewrite [if_neg (by omega), Nat.mod_eq_of_lt hlt]
+  have e1 : (sbn * 2 ^ m + esi) / 2 ^ m = sbn := by
+    rw [Nat.add_comm, Nat.add_mul_div_right _ _ (Nat.pow_pos (by decide)), Nat.div_eq_of_lt h2, Nat.zero_add]
+  have e2 : (sbn * 2 ^ m + esi) % 2 ^ m = esi := by
+    rw [Nat.add_comm, Nat.add_mul_mod_self_right, Nat.mod_eq_of_lt h2]
+  rw [e1, e2]
+
+/-- EXT_TIME with SCT-High + SCT-Low (RFC 5651 §5.2.2): ∀ instants of NTP era 0, the extension `push_sct` appends is
+    the RFC layout (HET 2, HEL 3, Use = SCT-High|SCT-Low) of the 64-bit NTP timestamp of the instant -/
+theorem ext_time_eq_spec (data : List Nat) (us : Nat) (h : us / 1000000 + 2208988800 < 2^32) :
+    ∃ ntp, systemTimeToNtp us = .ok ntp ∧ ntp < 2^64 ∧
+      pushSct data us = extendInc data (Spec.encode (extTimeSctDiagram (ntp / 2^32) (ntp % 2^32))) 3 := by
+  simp only [Nat.reducePow] at h ⊢
+  have hm : us % 1000000 < 1000000 := Nat.mod_lt _ (by decide)
+  obtain ⟨hf1, _⟩ := frac_ceil_floor _ hm
+  exact ⟨_, systemTimeToNtp_eq us h, (ntp_split _ _ h hf1).2.2,
+    pushSct_eq data us _ (systemTimeToNtp_eq us h) (ntp_split _ _ h hf1).2.2⟩
+
+/-- `parse_sct` on the RFC layout of ANY NTP timestamp = `ntp_to_system_time` of that timestamp -/
+theorem ext_time_parse_spec (secs frac : Nat) (h1 : secs < 2^32) (h2 : frac < 2^32) :
+    parseSct (Spec.encode (extTimeSctDiagram secs frac)) =
+      (ntpToSystemTime (secs * 2^32 + frac)).bind fun t => .ok (some t) := by
+  spec_bytes
+  simp only [Nat.reducePow] at h1 h2
+  apply parseSct_core
+  · simp only [Nat.reducePow]; omega
+  · simp only [Nat.reducePow]; omega
+  · simp only [Nat.reducePow]; omega
+
+/-- **sender current time round trip**: the EXT_TIME flute builds for an instant `us` of NTP era 0 is parsed back
+    by flute to exactly `us` (to the microsecond; false before the repair of D13) -/
+theorem ext_time_roundtrip (us : Nat) (h : us / 1000000 + 2208988800 < 2^32) :
+    ∃ ntp, systemTimeToNtp us = .ok ntp ∧
+      parseSct (Spec.encode (extTimeSctDiagram (ntp / 2^32) (ntp % 2^32))) = .ok (some us) := by
+  obtain ⟨ntp, h1, h2, h3⟩ := ntp_roundtrip us h
+  refine ⟨ntp, h1, ?_⟩
+  simp only [Nat.reducePow] at h2
+  rewrite [ext_time_parse_spec _ _ (by simp only [Nat.reducePow]; omega) (by simp only [Nat.reducePow]; omega)]
+  simp only [Nat.reducePow]
+  rewrite [Nat.div_add_mod' ntp 4294967296, h3]
+  rfl
 end Flute.Props.C06
